@@ -77,6 +77,7 @@ def evaluate(F, fn, me, pop, ke, reactants, products, buffer, fields_mol):
     table = {"mahf::state::State::populations_mut": popsym, "mahf::state::State::populations": popsym, "mahf::state::State::random_mut": Sym("rng"),
              "mahf::state::registry::StateRegistry::borrow_mut": bm, "mahf::state::registry::StateRegistry::borrow_value_mut": bvm,
              "rand::rng::Rng::gen_range": gen_range, "rand::distributions::uniform::Uniform::new": Sym("uniform"),
+             "rand::distributions::distribution::Distribution::sample": 0.5, "rand::rng::Rng::sample": 0.5, "rand::rng::Rng::gen": 0.5,
              "rand::distributions::distribution::Distribution::sample_iter": Agg("repeat", None, None, [0.5]), "rand::rng::Rng::sample_iter": Agg("repeat", None, None, [0.5])}
     it = install(Interp(fn.body, chain(mk_oracle(table), StackModel(sf), coll_oracle, std_oracle), [me, Sym("problem"), Sym("state")], facts=F,
                         inline=lambda k: k.startswith(POP + "::") or k.startswith(CRO) or c07.INLINE(k), max_visits=12, max_paths=200))
